@@ -119,7 +119,7 @@ def gen(rng, tier):
     # ---- CopyPackets
     for _ in range(20 if not thorough else 400):
         ps = [rpkt(rng) for _ in range(rng.randrange(0, 5))]
-        out.append(Case("hdr.copy_packets [%s]" % " ".join(hx(p) for p in ps), kind="copy-packets", theorem="C01_copy_packets"))
+        out.append(Case("hdr.copy_packets [ %s ]" % " ".join(hx(p) for p in ps), kind="copy-packets", theorem="C01_copy_packets"))
     return out
 
 
@@ -161,6 +161,8 @@ def _sweep_combos(f):
 
 
 def oracle(case, real, model):
+    if real in ("[8]", "[9]") or model in ("[8]", "[9]"):
+        return "executor rejected the request (malformed case line): real %s model %s" % (real, model)
     if not case.line.startswith("hdr.sweep_") or real == model:
         return None
     # find the first combination whose record differs and remember the individual call for shrink()
